@@ -64,7 +64,7 @@ int main(int argc, char** argv) {
     fprintf(rep, "REPLAY-PASS\n"); return 0;
   }
   uint32_t R = thorough ? 4096 : 1536;
-  st.rule = "complete: every T, B in 1.." + std::to_string(R) + " with E=1, and for E in {2,3,1024} L in {T*E, T*E-1, (T-1)*E+1}; sampled (seeded): L, E, B over the full 32-bit range with boundary bias (powers of two +-1, 2^31, 2^32-1, B=1, E=1, E>L); non-trivial = T not divisible by N and N >= 2; distinct = distinct (B, L, E)";
+  st.rule = "complete: every T, B in 1.." + std::to_string(R) + " with E=1, and for E in {2,3,1024} L in {T*E, T*E-1, (T-1)*E+1}; sampled (seeded): L, E, B over the full 32-bit range with boundary bias (powers of two +-1, 2^31, 2^32-1, B=1, E=1, E>L) and structured near-integer quotients (L = q*E + d and T = q*B + d with E or B above 10^9, d in 0..5); non-trivial = T not divisible by N and N >= 2; distinct = distinct (B, L, E)";
   st.exhaustive = true;
   st.subspaces.push_back("T,B in 1.." + std::to_string(R) + " (E=1 and E in {2,3,1024} with three L per T): complete; full 32-bit range: sampled");
   // complete small range, B sharded over workers
@@ -93,6 +93,25 @@ int main(int argc, char** argv) {
       default: return (uint32_t)splitmix(x);
     }
   };
+  // structured: quotients that are an integer plus a tiny fraction (L = q*E + d, T = q*B + d with huge E or B),
+  // where floating-point ceilings and "closest integer" helpers are most fragile
+  {
+    uint64_t nst = thorough ? 2000000 : 60000;
+    for (uint64_t i = 0; i < nst && !failed; i++) {
+      uint32_t big = biased(); if (big < 1000) big = 0xFFFFFFFFu - big;
+      if (splitmix(x) & 1) big = (uint32_t)(1000000000u + splitmix(x) % 3294967295ull);
+      uint64_t q = 1 + splitmix(x) % 4, d = splitmix(x) % 6;   // d = 0: exact multiple
+      bool nt;
+      uint64_t L = q * big + d;
+      if (L >= 1 && L <= 0xFFFFFFFFull) {   // large E, L a hair above a multiple of E
+        uint32_t B = 1 + (uint32_t)(splitmix(x) % 8);
+        check(B, (uint32_t)L, big, &nt); st.evaluations++; if (nt) { st.nontrivial++; st.distinct.insert(mix2(((uint64_t)B << 32) | L, big)); }
+        // large B, T a hair above a multiple of B (E = 1)
+        check(big, (uint32_t)L, 1, &nt); st.evaluations++; if (nt) { st.nontrivial++; st.distinct.insert(mix2(((uint64_t)big << 32) | L, 1)); }
+      }
+      if (L >= 1 && L <= 0xFFFFFFFFull && L > d + 1) { check(big, (uint32_t)(L - d - 1), 1, &nt); st.evaluations++; }
+    }
+  }
   uint64_t ns = thorough ? 6000000 : 80000;
   for (uint64_t i = 0; i < ns && !failed; i++) {
     uint32_t B = biased(), L = biased(), E = biased();
